@@ -87,7 +87,12 @@ func parseLocation(zone string) (*time.Location, error) {
 		return tm.Location(), nil
 	}
 	if tm, err := time.Parse("Z07:00", zone); err == nil {
-		return tm.Location(), nil
+		// A numeric offset is a fixed zone; time.Parse would substitute the process-local
+		// zone (with its daylight-saving rules) when the offsets happen to coincide.
+		if _, offset := tm.Zone(); offset != 0 {
+			return time.FixedZone(zone, offset), nil
+		}
+		return time.UTC, nil
 	}
 	if zone == "Local" {
 		return time.Local, nil
